@@ -75,7 +75,7 @@ def oracle_hits(cases):
 def lit_mem(c):
     ops = []
     for op, (hit, ln) in zip(c['ops'], c['obs']):
-        o = {'set': lambda: f'OSet {op[1]} {op[2]}', 'get': lambda: f'OGet {op[1]}', 'clear': lambda: 'OClear'}[op[0]]()
+        o = {'set': lambda: f'OSet {op[1]} {op[2]}', 'get': lambda: f'OGet {op[1]}', 'clear': lambda: 'OClear', 'pickle': lambda: 'OPickle'}[op[0]]()
         ops.append(f'({o}, ({"None" if hit is None else "Some " + str(hit)}, {ln}))')
     return f'({"None" if c["size"] is None else "Some " + str(c["size"])}, ' + lib.clist(ops) + ')'
 
@@ -141,5 +141,6 @@ def run(ctx):
     res['evaluations'] += total + total2
     res['mismatches'] += len(bad) + len(bad2)
     res['distribution'].update({'memcache_op_lists': total, 'shard_cases': total2})
-    from props import relcorr
-    return relcorr.memo_oracle(ctx, res, 'C08')
+    from props import relcorr, colreuse
+    res = relcorr.memo_oracle(ctx, res, 'C08')
+    return colreuse.add(ctx, res, 'C08')
